@@ -16,7 +16,8 @@ RULE = ("goal sets with priority numberings (negative, gaps, duplicates, float p
         "int(), empty goals) x exhaustive success/failure scripts of the solver (all boolean sequences "
         "of the length of the priority list) x {GoalProgrammingMixin, keep_soft_constraints, "
         "SinglePassGoalProgrammingMixin (both methods)}; non-trivial = at least one failing solve; "
-        "distinct = distinct (priorities, empties, script, variant)")
+        "distinct = distinct (priorities, empties, script, variant)"
+        ' Also: optimize(log_solver_failure_as_error=False) and empty path goals with infinite targets.')
 MODELLED = ("goal_programming_mixin.py optimize() 622-759 and single_pass_goal_programming_mixin.py optimize() "
             "285-437: priority grouping, hooks, break on failure, results cache, return value")
 NOT_MODELLED = "the user hook flag skip_priority; log messages; what the solver computes (scripted)"
